@@ -97,10 +97,13 @@ Print Assumptions C15_model_uses_thread_automaton.
    starve (avoid_starvation); rb : role bits of the activated source (0 inner, 1 base anon).  Every reachable state:
    any number of threads calling merge_data, workers of the target queue, dispatch_suspend / dispatch_resume (inline
    count), dispatch_source_cancel and spurious MAKE_DIRTY wakeups, in any interleaving.
+   A run starts from the source as dispatch_source_create leaves it (inactive, not installed) or from an active installed
+   source; activation (dispatch_activate, or dispatch_resume of an inactive source), the role inheritance and the
+   installation by the first invoke are steps of the model.
    BOUNDARY (not part of the model): the target queue is a counter `rootq` of how many times the source sits in it, and
    any idle thread may act as its worker; that the target queue eventually invokes what sits in it is C01 for the
-   target.  Scope: source activated and installed; more than 62 nested suspensions, over-resume and the life cycle
-   after cancellation leave the fragment (POut / not modelled). *)
+   target.  Not modelled: more than 62 nested suspensions (side counter), over-resume, the "invalid suspension state"
+   crash, the life cycle after cancellation (a thread that gets there leaves the fragment: POut). *)
 
 (* the event handler of a source is never running on two threads at once, whatever queue it targets: the callout
    (PW_call -> PW_incall) lies inside the region protected by the drain lock of the real dq_state word; two threads in
@@ -192,17 +195,17 @@ Print Assumptions C15_lane_never_zero.
    proposed global order are untrusted; the scheduler takes an action only if the model state holds the value the
    implementation observed, the model step is enabled, and it produces the recorded words / program point / latched and
    delivered value.  Whatever it is given, it only takes steps of the model: *)
-Theorem C15_replay_reach : forall c L w0 fuel w s qs ord done ok s' done' rest ok' qs',
-  SrcLaneR_proofs.reachw c w0 s -> SrcLaneR.sched c L fuel w s qs ord done ok = (s', done', rest, ok', qs') ->
-  SrcLaneR_proofs.reachw c w0 s'.
+Theorem C15_replay_reach : forall c L depths w0 inst fuel w s qs ord done ok s' done' rest ok' qs',
+  SrcLaneR_proofs.reachw c w0 inst s -> SrcLaneR.sched c L depths fuel w s qs ord done ok = (s', done', rest, ok', qs') ->
+  SrcLaneR_proofs.reachw c w0 inst s'.
 Proof. exact SrcLaneR_proofs.sched_reach. Qed.
 Print Assumptions C15_replay_reach.
-(* a replay starts from the source at rest with the recorded word; such a state satisfies the invariant of (B), so every
+(* a replay starts from the source at rest with the recorded word (inactive as created, or active); such a state satisfies the invariant of (B), so every
    state a replay passes through is a reachable state of the model that satisfies it *)
-Theorem C15_replay_sound : forall c w0 L fuel w qs ord s' done' rest ok' qs',
+Theorem C15_replay_sound : forall c w0 inst L depths fuel w qs ord s' done' rest ok' qs',
   SrcLaneR.init_word_ok w0 = true ->
-  SrcLaneR.sched c L fuel w (SrcLaneR.init_from w0) qs ord 0 true = (s', done', rest, ok', qs') ->
-  SrcLaneR_proofs.reachw c w0 s' /\ SrcLane_proofs.Inv c s'.
+  SrcLaneR.sched c L depths fuel w (SrcLaneR.init_from w0 inst) qs ord 0 true = (s', done', rest, ok', qs') ->
+  SrcLaneR_proofs.reachw c w0 inst s' /\ SrcLane_proofs.Inv c s'.
 Proof. exact SrcLaneR_proofs.replay_sound. Qed.
 Print Assumptions C15_replay_sound.
 (* the boolean invariant the replay evaluates on every state (word fields, token / lock shape, the no-stranding and DIRTY
@@ -246,12 +249,12 @@ Proof. vm_compute. repeat split. Qed.
    second merge the word is locked by 9, ENQUEUED and DIRTY, and 9 is in the handler; at the end everything is delivered
    and the word is the idle word of the recorded runs (0x1ffe1000000000) *)
 Definition lane_steps (t : Z) (n : nat) : list SrcLane.action := repeat (SrcLane.AStep t) n.
-Definition lane_cfg := SrcLane.mkCfg KindAdd true true.
+Definition lane_cfg := SrcLane.mkCfg KindAdd true true true true.
 Definition lane_demo1 : list SrcLane.action :=
-  SrcLane.ABegin 7 (SrcLane.CMerge 5 0) :: lane_steps 7 6 ++ SrcLane.ABegin 9 (SrcLane.CWorker 0) :: lane_steps 9 6 ++
+  SrcLane.ABegin 7 (SrcLane.CMerge 5 0) :: lane_steps 7 6 ++ SrcLane.ABegin 9 (SrcLane.CWorker 0) :: lane_steps 9 7 ++
   SrcLane.ABegin 8 (SrcLane.CMerge 3 0) :: lane_steps 8 5.
 Definition lane_demo2 : list SrcLane.action :=
-  lane_demo1 ++ lane_steps 9 5 ++ SrcLane.ABegin 9 (SrcLane.CWorker 0) :: lane_steps 9 10.
+  lane_demo1 ++ lane_steps 9 5 ++ SrcLane.ABegin 9 (SrcLane.CWorker 0) :: lane_steps 9 11.
 Example C15_lane_nonvacuous :
   match SrcLane.run lane_cfg (SrcLane.init_state 1) lane_demo1 with
   | Some s => (exists o, SrcLane.pcs s 9 = SrcLane.PW_incall o) /\ SrcLane.pend s = 3 /\ SrcLane.delivered s = [5] /\
